@@ -229,12 +229,11 @@ def check_input(
             args = list(args)
             validate_args = (head, tail, sample, random_state, lazy, inplace)
 
-            sig = inspect.signature(_unwrap_fn(wrapped))
+            # the signature of ``wrapped`` as it is called here: a bound method
+            # does not expect "self" / "cls" among the arguments
+            sig = inspect.signature(wrapped)
             is_method = [*sig.parameters][0] in ("self", "cls")
-            if is_method and len(args) == len(sig.parameters) - 1:
-                pos_args = sig.bind_partial(None, *args).arguments
-            else:
-                pos_args = sig.bind_partial(*args).arguments
+            pos_args = sig.bind_partial(*args).arguments
 
             if isinstance(obj_getter, int):
                 try:
